@@ -179,6 +179,8 @@ class FuncView:
         return self._pdom
 
     def node_of(self, expr_or_stmt) -> Node | None:
+        if isinstance(expr_or_stmt, Node):
+            return expr_or_stmt
         n = self.cfg.node_for(expr_or_stmt)
         if n is not None:
             return n
